@@ -249,3 +249,15 @@ Fixpoint bwf (n : bnode) : Prop :=
 Definition chk_emit_dag (f : flow) (extras : list snode) (plumbing observed : list string) : N :=
   if toks_eqb (("for_each"%string :: flow_emit f) ++ plumbing) (observed ++ concat (map emit_s extras))
   then 0%N else 1%N.
+
+(* across_ticks: a top-level fragment [f] fed with the batches; bit1 = in every tick t, what has
+   been emitted so far (stream) / what is held (aggregate) is the denotation of ticks 0..t *)
+Definition C30_across_b (f : flow) (bs : list env) (impl : list (list val)) : bool :=
+  forallb (fun t =>
+    match f with
+    | FS n => equiv_b (ord n) (concat (firstn (S t) impl)) (den_s n (flat (firstn (S t) bs)))
+    | FA a => equiv_b (aexact a) (nth t impl []) (den_a a (flat (firstn (S t) bs)))
+    end) (seq 0 (List.length impl)).
+Definition chk30_across (f : flow) (ticks : list (list (list val))) (impl : list (list val)) : N :=
+  let bs := map mkenv ticks in
+  verdict (ticks_agree (flow_exact f) impl (flow_run f bs)) (C30_across_b f bs impl).
